@@ -21,12 +21,16 @@ open MdIt.Link
 #check @dest_spec
 #check @dest_pos_bounds
 #check @BareToks.no_space
-#check @BareToks.ctrl_escaped
+#check @BareToks.no_ctrl
+#check @BareToks.no_lf
+#check @AngleToks.no_lf
 #check @dest_no_ctrl
+#check @dest_lines_zero_sound
 #check @title_total
 #check @title_panics_iff
 #check @title_delims
-#check @TitleToks.lines_le
+#check @TitleToks.lines_eq
+#check @title_lines_exact
 #check @rejected_stays_literal
 #check @tail_total
 #print axioms linkSafe_eq
@@ -50,11 +54,15 @@ open MdIt.Link
 #print axioms dest_spec
 #print axioms dest_pos_bounds
 #print axioms BareToks.no_space
-#print axioms BareToks.ctrl_escaped
+#print axioms BareToks.no_ctrl
+#print axioms BareToks.no_lf
+#print axioms AngleToks.no_lf
 #print axioms dest_no_ctrl
+#print axioms dest_lines_zero_sound
 #print axioms title_total
 #print axioms title_panics_iff
 #print axioms title_delims
-#print axioms TitleToks.lines_le
+#print axioms TitleToks.lines_eq
+#print axioms title_lines_exact
 #print axioms rejected_stays_literal
 #print axioms tail_total
